@@ -525,3 +525,91 @@ def job1_pool_jobs(ctx):
             ctx.check('JOB-1', '%s|spawner-awaits' % cb.name, bool(waits),
                       'the spawning function %s receives the replies' % top.name, where(t))
     ctx.require(n >= 1, 'JOB-1: no pool job with a reply channel found')
+
+
+# ------------------------------------------------------------------------------------ FLW-16
+def _source_tokens(lm, F, du, operand):
+    """Where a buffer-typed value comes from: lock guards it was read through, iterator elements,
+    mem::take results."""
+    toks = set()
+    org = du.origins(base_local(operand))
+    for (bid, c) in org['calls']:
+        f = c.func or ''
+        n = norm_callee(f)
+        if GUARD_DEREF.match(f):
+            holder = base_local(c.args[0])
+            for _i in range(10):
+                d = du.single_def(holder)
+                if d and d[1] == 'stmt' and re.match(r'^(&(mut )?|copy |move )\(?\*?_\d+\)?$', d[2].rhs.strip()):
+                    holder = base_local(d[2].rhs)
+                else:
+                    break
+            for fact in lm.may_at(F, bid, None):
+                if fact[1] == holder:
+                    toks.add('guard:' + fact[0])
+            if holder is None:
+                toks.add('guard:?')
+        elif n.endswith('Iterator>::next'):
+            toks.add('iter@bb%d' % bid)
+        elif n in ('std::mem::take', 'std::mem::replace'):
+            toks.add('take@bb%d' % bid)
+    return toks
+
+
+def flw16_offsets_count_placed_rows(ctx):
+    ctx.rule('FLW-16', 'row offsets advance by the length of exactly the rows that were just placed '
+                       '(snapshot: ephemeral partitions follow each other without gap or overlap; '
+                       'batch: the next partition offset grows by the batched rows)', floor=2)
+    P = ctx.P
+    lm = lockmodel(ctx)
+    for fname in ('Table::snapshot', 'Table::batch'):
+        F = P.one('mem_store::table::' + fname)
+        du = lm.du(F)
+        cfg = CFG(F)
+        placed = calls_matching(F, lambda n: n.endswith('Partition::from_buffer'))
+        ctx.require(placed, 'FLW-16: %s does not build a partition from a buffer' % fname)
+        # increments: Add on a usize where one side comes from Buffer::len, or fetch_add(len)
+        incs = []
+        for bid, blk in F.blocks.items():
+            if blk.cleanup:
+                continue
+            for s in blk.stmts:
+                if s.kind == 'assign':
+                    m = re.match(r'^(AddWithOverflow|Add|AddUnchecked)\((.*), (.*)\)$', s.rhs)
+                    if m:
+                        for op in (m.group(2), m.group(3)):
+                            l = base_local(op) if not op.strip().startswith('const') else None
+                            if l is None:
+                                continue
+                            org = du.origins(l)
+                            lens = [c for (_b, c) in org['calls'] if norm_callee(c.func).endswith('Buffer::len')]
+                            if lens and len(org['calls']) <= 6:
+                                incs.append((bid, s, lens[0]))
+            t = blk.term
+            if t is not None and t.kind == 'call' and norm_callee(t.func).endswith('AtomicUsize::fetch_add'):
+                org = du.origins(base_local(t.args[1]))
+                lens = [c for (_b, c) in org['calls'] if norm_callee(c.func).endswith('Buffer::len')]
+                if lens:
+                    incs.append((bid, t, lens[0]))
+        if not incs:
+            ctx.violation('FLW-16', '%s|offset-advances' % fname,
+                          'no offset is advanced by a buffer length', where(placed[0][1]))
+            continue
+        for (ibid, site, lencall) in incs:
+            ltoks = _source_tokens(lm, F, du, lencall.args[0])
+            # the placement this increment belongs to: the from_buffer call in the same branch /
+            # iteration (dominating the increment or dominated by it, closest first)
+            cands = [(pb, pt) for (pb, pt) in placed if cfg.dominates(pb.id, ibid) or cfg.dominates(ibid, pb.id)]
+            if not cands:
+                cands = placed
+            best = None
+            for (pb, pt) in cands:
+                btoks = _source_tokens(lm, F, du, pt.args[2])
+                if best is None or (btoks == ltoks):
+                    best = (pb, pt, btoks)
+                if btoks == ltoks:
+                    break
+            pb, pt, btoks = best
+            ctx.check('FLW-16', '%s|offset-advances-by-placed-rows' % fname, btoks == ltoks and bool(ltoks),
+                      'offset grows by len() of %s; the rows placed come from %s'
+                      % (sorted(ltoks), sorted(btoks)), where(site))
